@@ -744,3 +744,25 @@ def closure_arg(body, operand):
     if o[0] == "const":
         return o[1].get("closure")
     return None
+
+
+def bool_paths(body, **kw):
+    """Paths of a bool-returning function, with a path that returns a non-constant expression split into the two outcomes
+    of that expression (as if it had been branched on): `if c { return false } true` and `!c` then read the same."""
+    import copy
+    out = []
+    is_bool = str((body.raw.get("locals") or [""])[0]) == "bool"
+    for p in PathEval(body, **kw).run():
+        if is_bool and p.end == "return" and p.ret is not None and p.ret[0] != "const":
+            t = p.ret
+            neg = False
+            while t and t[0] == "un" and t[1] == "Not":
+                t, neg = t[2], not neg
+            for v in (1, 0):
+                q = copy.copy(p)
+                q.conds = list(p.conds) + [(t, v, None)]
+                q.ret = ("const", "bool", (1 - v) if neg else v, None)
+                out.append(q)
+        else:
+            out.append(p)
+    return out
